@@ -43,6 +43,9 @@ pub struct BlockSpec {
 #[derive(Clone, Debug, Serialize, Deserialize)]
 pub enum EOp {
     Begin(u8),
+    /// begin a block again while it is still in progress (first slice delivered again / restart):
+    /// execution restarts from the parent's commitment
+    Rebegin(u8),
     Slice(u8),
     End(u8),
     /// end a block that was never begun
@@ -79,7 +82,7 @@ impl Property for C20 {
          boundaries, next to them, or in the last byte, so that keys share prefixes of up to 255 bits), values of 0..40 \
          bytes (empty included), and a sequence of insert / remove / fork / compare over up to 6 forks; (b) engine: a tree \
          of up to 6 blocks over 4 slots (pending or known ids, at most one pending per slot, parents known / genesis / \
-         external), transactions split into slices, with begin / slice / end / finalize interleaved. Oracle (a): one \
+         external), transactions split into slices, with begin / re-begin of a block still in progress / slice / end / finalize interleaved. Oracle (a): one \
          BTreeMap per fork — get, len, insert/remove return values, ordered iteration, fork isolation, equality iff equal \
          contents, incrementally observed LtHash = recomputed from contents; (b) reference fold over the parent's reported \
          commitment (parent block hash / genesis when the parent is not tracked), exactly one event per ended block. \
@@ -113,6 +116,7 @@ impl Property for C20 {
             .prop_map(|(slot, known, parent, txs, tx_seed)| BlockSpec { slot, known, parent, txs, tx_seed });
         let eop = prop_oneof![
             4 => (0u8..6).prop_map(EOp::Begin),
+            1 => (0u8..6).prop_map(EOp::Rebegin),
             6 => (0u8..6).prop_map(EOp::Slice),
             4 => (0u8..6).prop_map(EOp::End),
             1 => (0u8..6).prop_map(EOp::EndUnknown),
@@ -302,11 +306,20 @@ fn run_engine(blocks: &[BlockSpec], ops: &[EOp]) -> Outcome {
                 break;
             }
             match &op {
-                EOp::Begin(i) => {
+                EOp::Begin(i) | EOp::Rebegin(i) => {
                     let i = *i as usize % nb;
                     let id = id_of(i);
-                    if model.contains_key(&id) {
-                        continue;
+                    let again = matches!(op, EOp::Rebegin(_));
+                    match model.get(&id) {
+                        Some(m) if again && m.ended_as.is_none() => {
+                            if m.tx_count > 0 {
+                                out.nontrivial = true;
+                                out.label("re-begun-after-transactions");
+                            }
+                        }
+                        Some(_) => continue,
+                        None if again => continue,
+                        None => {}
                     }
                     let b = &blocks[i];
                     // resolve the parent
